@@ -108,7 +108,7 @@ func c10Parts(r *fw.Rand, n int, allowCall bool) []ref.Node {
 func c10Msg(r *fw.Rand) *ref.Msg {
 	m := &ref.Msg{Desc: "description " + strconv.Itoa(r.Intn(5))}
 	if r.P(1, 3) {
-		m.Meaning = []string{"noun", "verb", "a button label"}[r.Intn(3)]
+		m.Meaning = []string{"noun", "verb", "a button label", "verb  to file", "a  b   c", " lead", "trail ", "tab\there", "caf\u00e9 \u4e2d", "x=\u00a0y", "UPPER lower"}[r.Intn(11)] // (whitespace in a meaning is part of it)
 	}
 	switch {
 	case r.P(1, 4):
